@@ -443,8 +443,10 @@ class _DataCompiler:
     ):
         # If a file recursively includes itself (directly or indirectly), we
         # end up in an infinite loop, so we have to detect such a situation.
-        if file_name in parent_files:
-            file_index = parent_files.index(file_name)
+        # The first element of parent_files is not a file name, but the marker
+        # for the top file, so we must not compare it with the file name.
+        if file_name in parent_files[1:]:
+            file_index = parent_files.index(file_name, 1)
             include_chain = " -> ".join(
                 parent_files[file_index:] + [file_name]
             )
